@@ -214,6 +214,12 @@ def switch_programs():
              N('O', I('p1', 'W'), I('p2', 'X'))]
     p = P('switch_case_other_consumer', nodes, 'A', 'O', tags=['switch', 'shared'])
     out += variants(p, [[R({'S': ['label:l1']})], [R({'S': ['label:l2']})]], ['l1', 'l2'])
+    # ... and the other consumer of the case comes after the switch's consumer in the launch order, so the launch
+    # loop is parked on the switch's consumer when the case completes
+    nodes = [N('A'), N('S', I('p1', 'A')), N('C1', I('p1', 'A')), N('C2', I('p1', 'A')),
+             N('W', SW('p1', 'S', [('l1', 'C1'), ('l2', 'C2')], name='sw1')), N('O', I('p1', 'W'), I('p2', 'C1'))]
+    p = P('switch_case_later_consumer', nodes, 'A', 'O', tags=['switch', 'shared'])
+    out += variants(p, [[R({'S': ['label:l1']})], [R({'S': ['label:l2']})]], ['l1', 'l2'])
     # the switch node returns None / a falsy value: no such label
     p = P('switch_none_label', [N('A'), N('S', I('p1', 'A')), N('C1', I('p1', 'A')), N('C2', I('p1', 'A')),
                                 N('O', SW('p1', 'S', [('l1', 'C1'), ('l2', 'C2')], name='sw1'))], 'A', 'O', tags=['switch'])
@@ -369,6 +375,14 @@ def rec_programs():
     p = P('rec_nested', nodes, 'A', 'O', tags=['rec'])
     out += variants(p, [[R(recreq={'D': 1, 'D2': 1})], [R(recreq={'D': 0, 'D2': 2})], [R(recreq={'D': 2, 'D2': 0})]],
                     ['1_1', '0_2', '2_0'])
+    # destinations that ask for iterations by invocation count (like the repository's tests do with counters):
+    # the inner sub-graph finishes, the outer one iterates, the inner destination asks again
+    nodes = [N('A'), N('S', I('p1', 'A')), N('S2', I('p1', 'S')), N('D2', I('p1', 'S2')),
+             N('D', RC('p1', 'S2', 'D2', 2)), N('O', RC('p1', 'S', 'D', 2))]
+    q = P('rec_nested_counted', nodes, 'A', 'O', tags=['rec', 'counted'])
+    q['runs'] = [dict(input={'x': 'tokA'}, plan={}, recreq={}, recfalsy=[], recseq={'D2': 'RNRN', 'D': 'RN'})]
+    q['name'] = 'rec_nested_counted#rnrn'
+    out.append(q)
     # switch inside the sub-graph (test_subgraph_with_inside_switch)
     nodes = [N('A'), N('S', I('p1', 'A')), N('SWN', I('p1', 'S')), N('C1', I('p1', 'S')), N('C2', I('p1', 'S')),
              N('D', SW('p1', 'SWN', [('l1', 'C1'), ('l2', 'C2')], name='swin')), N('O', RC('p1', 'S', 'D', 2))]
